@@ -760,6 +760,148 @@ def r18_nothing_cached_above_the_leaves_of_change(idx, r):
         raise AnchorMissing("methods of ArmiObject / Composite")
 
 
+# accessors of ArmiObject that answer with an extensive quantity of the object ALREADY reduced by the object's own symmetry factor
+# (Block.getVolume / getArea divide by it; masses are sums of component masses, each over the parent block's factor)
+_OWN_REDUCED = ("getVolume", "getArea", "getMass", "getHMMass", "getFissileMass", "getFPMass", "getFuelMass", "getHMMoles", "getNumberOfAtoms")
+
+
+def _ifexp_alternatives(e, limit=16):
+    """The expression with every conditional expression resolved to one of its branches (all combinations, bounded)."""
+    import copy
+
+    first = next((x for x in ast.walk(e) if isinstance(x, ast.IfExp)), None)
+    if first is None:
+        return [e]
+    out = []
+    for pick in ("body", "orelse"):
+        class _Pick(ast.NodeTransformer):
+            done = False
+
+            def visit_IfExp(self, n):
+                if self.done:
+                    return n
+                self.done = True
+                return getattr(n, pick)
+        alt = _Pick().visit(copy.deepcopy(e))
+        out.extend(_ifexp_alternatives(alt, limit))
+        if len(out) > limit:
+            raise AnalysisError(f"`{norm(e)[:60]}`: more than {limit} combinations of conditional expressions")
+    return out
+
+
+def _monomials(e):
+    """Exact Laurent normal form (exprnf.Poly) of an arithmetic expression; whatever is not + - * / **int is an opaque atom keyed by its
+    canonical text.  Returns (poly, {atom text: node})."""
+    from ..exprnf import ExprEval, Poly
+
+    nodes = {}
+
+    class _Ev(ExprEval):
+        def ev(self, n):
+            if isinstance(n, ast.BinOp) and (isinstance(n.op, (ast.Add, ast.Sub, ast.Mult, ast.Div)) or (isinstance(n.op, ast.Pow) and isinstance(n.right, ast.Constant) and isinstance(n.right.value, int))):
+                return ExprEval.ev(self, n)
+            if isinstance(n, ast.UnaryOp) and isinstance(n.op, (ast.USub, ast.UAdd)):
+                return ExprEval.ev(self, n)
+            if isinstance(n, ast.Constant) and isinstance(n.value, (int, float)) and not isinstance(n.value, bool):
+                return ExprEval.ev(self, n)
+            if isinstance(n, ast.Call) and dotted(n.func) in ("float", "int") and len(n.args) == 1 and not n.keywords:
+                return self.ev(n.args[0])
+            k = str(norm(n))
+            nodes[k] = n
+            return Poly.atom(k)
+
+    try:
+        return _Ev().ev(e), nodes
+    except ZeroDivisionError:
+        return Poly(), nodes
+
+
+def r19_own_extensive_not_reduced_again(idx, r):
+    """What an object reports as ITS volume, area, mass or atom count is already the part inside the modelled domain: Block.getVolume and
+    Block.getArea divide the children's sum by the block's own symmetry factor, Assembly.getVolume/getArea are built from those, and every
+    mass is a sum of component masses each divided by the parent block's factor.  A product in which X.getVolume() (getArea, getMass ...)
+    is divided by X.getSymmetryFactor() OF THE SAME X therefore applies the factor twice: for the central block of a third-core model
+    (factor 3) or an edge block (factor 2) the result is 1/3 (1/2) of density x volume.  (Dividing by the PARENT's factor - the component
+    sites of R02.2 - and multiplying by the own factor - the full-object totals of calcTotalParam - are different receivers / exponents
+    and are not concerned.)  Family: every method of every class of the composite hierarchy (ArmiObject and all its subclasses); one
+    instance per call of such an accessor; each arithmetic expression (after copy propagation of single-assignment locals, `x op= e`
+    folded over every binding of x, conditional expressions taken branch by branch) is brought to its exact Laurent normal form and no
+    monomial may hold X.<accessor>() with a positive and X.getSymmetryFactor() with a negative exponent.  Methods of classes whose own
+    factor is the constant 1.0 of ArmiObject for the class and all its subclasses (components, cores) are exempt for receiver `self`:
+    there the division changes nothing."""
+    ao = idx.cls(AO)
+    for q in _OWN_REDUCED + ("getSymmetryFactor",):
+        if q not in ao.methods:
+            raise AnchorMissing(f"ArmiObject.{q}")
+    base_sf = ao.methods["getSymmetryFactor"]
+    rets = [n for n in walk_local(base_sf.node) if isinstance(n, ast.Return)]
+    if len(rets) != 1 or norm(rets[0].value) != "1.0":
+        raise AnalysisError("ArmiObject.getSymmetryFactor is no longer the constant 1.0: the exemption of uncut classes has lost its ground")
+    classes = idx.subclasses(ao, strict=False)
+    cut = {c for c in classes if c.resolve("getSymmetryFactor") is not base_sf}
+    if not any(c.name == "Block" for c in cut) or not any(c.name == "Assembly" for c in cut):
+        raise AnchorMissing("Block / Assembly overriding getSymmetryFactor")
+    may_be_cut = {c for c in classes if any(c in d.mro() for d in cut)}  # the class itself or one of its subclasses has a factor of its own
+
+    def quantity(n):
+        if isinstance(n, ast.Call) and isinstance(n.func, ast.Attribute) and n.func.attr in _OWN_REDUCED:
+            return str(norm(n.func.value)), n.func.attr
+        return None
+
+    for c in classes:
+        for name, f in sorted(c.methods.items()):
+            uses = [n for n in walk_local(f.node, include_nested=True) if quantity(n)]
+            if not uses:
+                continue
+            env = single_assign_env(f.node)
+            bound = {}
+            for s_ in iter_stores(f.node, include_nested=False):
+                if s_.kind == "assign" and isinstance(s_.node, ast.Name) and s_.value is not None:
+                    bound.setdefault(s_.node.id, []).append(s_.value)
+            inner = set()
+            exprs = []
+            for n in walk_local(f.node, include_nested=True):
+                if isinstance(n, ast.BinOp) and id(n) not in inner:
+                    exprs.append(n)
+                if isinstance(n, ast.BinOp) or (isinstance(n, ast.UnaryOp) and id(n) in inner):
+                    for ch in (getattr(n, "left", None), getattr(n, "right", None), getattr(n, "operand", None)):
+                        if isinstance(ch, (ast.BinOp, ast.UnaryOp)):
+                            inner.add(id(ch))
+                if isinstance(n, ast.AugAssign) and isinstance(n.op, (ast.Mult, ast.Div)):
+                    if isinstance(n.target, ast.Name) and n.target.id in bound:
+                        exprs.extend(ast.BinOp(left=v, op=n.op, right=n.value) for v in bound[n.target.id])
+                    else:
+                        exprs.append(ast.BinOp(left=n.target, op=n.op, right=n.value))
+            twice = {}
+            for e in exprs:
+                pe = propagate(e, env)
+                if "getSymmetryFactor" not in str(norm(pe)):
+                    continue
+                for alt in _ifexp_alternatives(pe):
+                    p, nodes = _monomials(alt)
+                    for mono in p.t:
+                        exps = dict(mono)
+                        for a, k in exps.items():
+                            qn = quantity(nodes.get(a))
+                            if qn is None or k <= 0:
+                                continue
+                            if any(k2 < 0 and isinstance(nodes.get(a2), ast.Call) and call_attr(nodes[a2]) == "getSymmetryFactor" and not nodes[a2].args
+                                   and str(norm(nodes[a2].func.value)) == qn[0] for a2, k2 in exps.items()):
+                                twice.setdefault(qn, e)
+            seen = {}
+            for u in uses:
+                recv, q = str(norm(propagate(u.func.value, env))), u.func.attr
+                if recv == "self" and c not in may_be_cut:
+                    continue
+                i = seen[(recv, q)] = seen.get((recv, q), 0) + 1
+                key = f"{f.qualname}:{recv}.{q}" + (f"#{i}" if i > 1 else "") + ":reduced-by-own-symmetry-factor-once"
+                bad = twice.get((recv, q))
+                r.require(bad is None, key, f, node=bad if bad is not None and hasattr(bad, "lineno") else u,
+                          msg=f"`{norm(bad)[:90] if bad is not None else ''}` divides {recv}.{q}() by {recv}.getSymmetryFactor(): what an object reports as its own {q[3:].lower()} is already reduced by its own symmetry factor "
+                              f"(Block.getVolume/getArea divide by it, masses are sums over components each divided by the parent's factor), so the factor is applied twice - for the central block or "
+                              f"assembly of a third-core model (factor 3) the result is 1/3, on an edge (factor 2) 1/2 of density x volume, and no longer the sum of the children's; factor-1 objects hide it")
+
+
 def run(idx, chk):
     chk.explanation = (
         "C02: 24 conversion/accounting functions are typed in the free abelian group of physical units (cm, g, mol, barn, atom) plus a role generator "
@@ -803,3 +945,5 @@ def run(idx, chk):
                  necessary="a held-constant element keeps its mass fraction; an enrichment that was set reads back; core mass is the sum of block masses with and without edge assemblies")
     chk.run_rule("R02.18", "no method of ArmiObject/Composite (inherited by every level) fills the composite cache", lambda r: r18_nothing_cached_above_the_leaves_of_change(idx, r), floor=100,
                  necessary="block-level densities are the volume-weighted means of the children's present densities")
+    chk.run_rule("R02.19", "what an object reports as its own volume, area, mass or atom count is never divided again by that same object's symmetry factor", lambda r: r19_own_extensive_not_reduced_again(idx, r), floor=63,
+                 necessary="volume is reduced by the symmetry factor ONCE where a block is cut by symmetry lines, and mass equals density times (that) volume at block and assembly level: a second division makes getMasses/atoms of a cut block 1/2 or 1/3 of the sum of its children's")
